@@ -221,6 +221,14 @@ C06conc(E, tags) == HasTag(tags, "released-before-resume") =>
   /\ acs # {}
   /\ \A p \in Pos(E) : (E[p].ev = "emitcall" /\ E[p].src = 2 /\ \E a \in acs : a < p) => E[p].cnt = 0
 
+\* tag "ends-with": an error raised by one input of a multi-input operator while another thread is delivering items of another
+\* input still reaches the subscriber - exactly once, as the last event, with its payload (q.expect = the terminal)
+C04ends(E, tags, q) == HasTag(tags, "ends-with") =>
+  LET d == DeliveredEvents(E, 1)
+      terms == { i \in 1..Len(d) : d[i][1] \in {"e", "c"} }
+  IN /\ (q.fin = "ok" \/ (q.fin = "stuck" /\ q.nblocked = q.nparked))
+     /\ Len(d) >= 1 /\ Cardinality(terms) = 1 /\ d[Len(d)][1] = q.expect[1][1] /\ d[Len(d)][2] = q.expect[1][2]
+
 \* ---------------------------------------------------------------- C15: worker threads exit when the subscription ends
 \* runtime events: spawn(v = new thread) / exit (with the virtual time clk of every event).  period = the case's timer period (ms).
 SubEnd(E, u) == LET ps == { p \in Pos(E) : (E[p].ev = "cbend" /\ E[p].u = u /\ E[p].k \in {"e", "c"}) \/ (E[p].ev = "unsubret" /\ E[p].u = u) }
@@ -289,7 +297,7 @@ C13ok(E, tags, q, period) ==
 
 Judge(E, tags, q) ==
   LET fin == q.fin IN
-  [C04 |-> IF C04ok(E, tags, q) THEN "ok" ELSE "bad", C06 |-> IF C06conc(E, tags) THEN "ok" ELSE "bad", C14 |-> IF C14ok(E, tags, q, q.period) THEN "ok" ELSE "bad", C09 |-> IF C09ok(E, tags, q) THEN "ok" ELSE "bad", C15 |-> IF C15ok(E, tags, q, q.period) THEN "ok" ELSE "bad",
+  [C04 |-> IF C04ok(E, tags, q) /\ C04ends(E, tags, q) THEN "ok" ELSE "bad", C06 |-> IF C06conc(E, tags) THEN "ok" ELSE "bad", C14 |-> IF C14ok(E, tags, q, q.period) THEN "ok" ELSE "bad", C09 |-> IF C09ok(E, tags, q) THEN "ok" ELSE "bad", C15 |-> IF C15ok(E, tags, q, q.period) THEN "ok" ELSE "bad",
    C16 |-> IF C16ok(E, tags, q, q.period) THEN "ok" ELSE "bad", C13 |-> IF C13ok(E, tags, q, q.period) THEN "ok" ELSE "bad", C18 |-> IF ~HasTag(tags, "tovec") \/ C18ok(E, q) THEN "ok" ELSE "bad",
    C08 |-> IF ~(HasTag(tags, "queue") \/ HasTag(tags, "default_queue")) \/ C08ok(E, tags, q) THEN "ok" ELSE "bad",
    C19 |-> IF C19ok(E) THEN "ok" ELSE "bad", C05 |-> IF C05ok(E) THEN "ok" ELSE "bad",
